@@ -67,11 +67,6 @@ def heldReq : PC → Bool
   | .spin .env _ _ | .acc .env _ _ | .scanLock .env (_ + 1) | .resLock .env => true
   | _ => false
 
-/-- The thread has left (or is leaving) its safepoint without looking at `paused` again. -/
-def PC.leaving : PC → Bool
-  | .retract _ | .envReady => true
-  | _ => false
-
 /-- In the exit loop after `paused` was seen set: will park (again) unless a token arrives. -/
 def PC.waiting : PC → Bool
   | .intCheck _ | .parking _ => true
@@ -133,6 +128,8 @@ structure Inv (s : State) : Prop where
     (s.stopper ≠ some u → TPcore (proj s u) th)
   stp : ∀ a, s.stopper = some a → a < s.threads.length
   tl : s.tlock = (if holdsT s.spc then s.stopper else none)
+  hlk : ∀ x, s.hlock = some x → x < s.threads.length
+  acs : ∀ a, s.stopper = some a → isAcc s.spc a = false
 
 /-! ## Lookups -/
 
@@ -186,7 +183,7 @@ theorem spc_none {s : State} (hs : s.stopper = none) : s.spc = .run := by
   simp [State.spc, hs]
 
 theorem inv_init : Inv init := by
-  refine ⟨?_, ?_, ?_⟩
+  refine ⟨?_, ?_, ?_, ?_, ?_⟩
   · intro u th hu
     have : u = 0 ∧ th = { reg := true } := by
       cases u with
@@ -198,5 +195,7 @@ theorem inv_init : Inv init := by
       simp [proj, init, State.spc, isAcc, covered, expEnv, holdsH, beforeUnpark, PC.waiting]
   · intro a h; simp [init] at h
   · simp [init, State.spc, holdsT]
+  · intro x h; simp [init] at h
+  · intro a h; simp [init] at h
 
 end SteelVerif.C15
